@@ -117,7 +117,7 @@ def descriptors(model) -> list:
 # ------------------------------------------------------------------ A. search
 
 
-def check_search(ctx: Ctx, out: Outcome, model, label: str, state: str, keep: list) -> None:
+def check_search(ctx: Ctx, out: Outcome, model, label: str, state: str, keep: list, only: dict | None = None) -> None:
     from capellambse import helpers
     from capellambse.model import _xtype
 
@@ -170,6 +170,32 @@ def check_search(ctx: Ctx, out: Outcome, model, label: str, state: str, keep: li
         d = raw_descendants(model, anchor)
         return {i for i in ids if i in d}
 
+    if only is not None:
+        # replay of one recorded query: rebuild the arguments and the expectation with the same oracle
+        byname = {c.__name__: c for c in handlers.values()}
+        kind = only["argkind"]
+        args = []
+        for a in only["args"]:
+            args.append(byname[a] if (":" not in a and a in byname and kind in ("class", "multi")) else a)
+        below = next((e for e in elems if e.get("id") == only.get("below")), None) if only.get("below") else None
+        if kind == "short" and not [k for k in handlers if k.endswith(":" + args[0])]:
+            run_query(args, kind, None, expect_exc="ValueError")
+            return
+        exp: set = set()
+        if kind == "all" or not args:
+            exp = {id(e) for e in typed} | {id(e) for e in desc}
+        for a in args:
+            if isinstance(a, str) and ":" in a:
+                exp |= {id(e) for e in typed if xt_of[id(e)] == a}
+                if a == "viewpoint:DRepresentationDescriptor":
+                    exp |= {id(e) for e in desc}
+            elif isinstance(a, str) and kind != "all":
+                keys = [k for k in handlers if k.endswith(":" + a)]
+                exp |= {id(e) for e in typed if xt_of[id(e)] in keys}
+            elif not isinstance(a, str):
+                exp |= {id(e) for e in typed if handlers.get(xt_of[id(e)]) is a}
+        run_query(args, kind, with_below(exp, below) if below is not None else exp, below=below)
+        return
     n_below = ctx.pick(2, 6)
     # full type strings
     for xt in present:
@@ -529,7 +555,10 @@ def filterable_names(lst, rng, cap: int) -> list[str]:
     except Exception:  # noqa: BLE001  (C11's business)
         names = {"name", "uuid"}
     names.discard("type")
-    names = sorted(names)
+    from capellambse.model import _obj
+
+    # only real attribute filters: list classes may define unrelated methods called by_* (RelationsList.by_relation_class)
+    names = sorted(n for n in names if isinstance(getattr(lst, "by_" + n, None), _obj._ListFilter))
     if len(names) > cap:
         keepn = [n for n in ("name", "uuid", "kind", "xtype", "layer") if n in names]
         names = keepn + rng.sample([n for n in names if n not in keepn], cap - len(keepn))
@@ -552,6 +581,10 @@ def check_filters_on(ctx: Ctx, out: Outcome, lst, label: str, state: str, origin
         return
     L = list(lst._elements)
     objs = list(lst)
+    # a "view" list (reqif RelationsList) stores relation elements but hands out the objects at their other end
+    view = any(getattr(o, "_element", None) is not e for o, e in zip(objs, L))
+    if view:
+        out.hit("filter:view-list")
     names = filterable_names(lst, rng, ctx.pick(6, 14))
     if type(lst).__name__.endswith("MixedElementList") or type(lst).__name__ == "MixedElementList":
         names.append("__type__")
@@ -643,9 +676,17 @@ def check_filters_on(ctx: Ctx, out: Outcome, lst, label: str, state: str, origin
                         ok = False
                         break
                 if ok:
+                    try:
+                        one = getattr(lst, by_name)(arg, single=True)
+                        sres = next((i for i, x in enumerate(L) if x is one._element), "other") if not view else \
+                            next((i for i, x in enumerate(L) if id(x) in ib), "other")
+                    except KeyError:
+                        sres = "KeyError"
+                    except Exception as e:  # noqa: BLE001
+                        sres = type(e).__name__
                     fcases.append(({"op": "filter", "items": enc, "vals": [atom(v)]},
                                    {"by": [i for i, x in enumerate(L) if id(x) in ib],
-                                    "ex": [i for i, x in enumerate(L) if id(x) in ie]}, rep))
+                                    "ex": [i for i, x in enumerate(L) if id(x) in ie], "single": sres}, rep))
             # single=True
             if a in ("name", "uuid") or rng.random() < 0.3:
                 try:
@@ -658,10 +699,12 @@ def check_filters_on(ctx: Ctx, out: Outcome, lst, label: str, state: str, origin
                 want = "one" if len(B) == 1 else "KeyError"
                 out.hit(f"single:{min(len(B), 2)}-matches")
                 out.case((label, state, "single", common.sha(origin), a, str(v)), None, True)
-                if res != want or (res == "one" and getattr(r, "_element", None) is not B[0]):
+                if res != want or (res == "one" and getattr(r, "_element", None) is not getattr(by[0], "_element", B[0])):
                     out.find(f"filter|single|{len(B) if len(B) < 2 else 'many'}-matches-gives-{res}",
                              f"[{label}/{state}] {by_name}({v!r}, single=True) on {origin} with {len(B)} matches gave {res}", dict(rep, single=True))
             # set difference, containment, filter(), agree with the halves
+            if view:
+                continue
             try:
                 diff = lst - by
                 D_ = list(diff._elements)
@@ -1037,7 +1080,7 @@ def run(ctx: Ctx) -> Outcome:
             if "ok" not in a:
                 out.disagree("filter", rep, iv, a)
                 continue
-            r, c = a["ok"]["repaired"], a["ok"]["coded"]
+            r, c = dict(a["ok"]["repaired"], single=a["ok"]["single"]), dict(a["ok"]["coded"], single=a["ok"]["single"])
             if iv == r:
                 out.hit("filter:impl=repaired" if r != c else "filter:impl=both")
             else:
@@ -1113,7 +1156,8 @@ def replay(ctx: Ctx, case: dict):
     o = Outcome()
     keep: list = []
     if kind == "search":
-        check_search(ctx, o, model, label, "loaded", keep)
+        check_search(ctx, o, model, label, "loaded", keep, only=case)
+        return o.findings[0].what if o.findings else None
     elif kind in ("findrefs", "backref", "shape"):
         check_references(Ctx(ctx.prop, "thorough", ctx.seed), o, model, label, "loaded", keep, only_y=case.get("y"))
     elif kind == "filter":
